@@ -41,6 +41,12 @@ inductive Tok
   (malformed or recursive include, invalid `parse` value, missing `href`).  After a successful
   inclusion the handler walks the expanded tree: that is `tree`. -/
   | includeError
+  /-- lxml handler (`recover=True`): libxml2 gives up at a fatal error before the root element
+  is closed; the node queue is not empty at the end and the handler has no result -/
+  | stopped
+  /-- lxml handler: character data that lxml cannot decode (a reference to a surrogate code
+  point survives libxml2's recovery mode): `UnicodeDecodeError` when text or attributes are read -/
+  | textDecodeError
 deriving Repr
 
 /-- `NodeParser.parse(source, clazz)` as far as the result class is concerned -/
@@ -51,5 +57,9 @@ def parseDocument (e : BEnv) (Γ : Ctx) (cfg : ParserConfig) (clazz : ClassId) :
   | .codecError _ => .error (.parser "codec error")
   -- native: `FatalIncludeError` is a `SyntaxError`; lxml: `except etree.XIncludeError: raise ParserError`
   | .includeError => .error (.parser "xinclude error")
+  -- handlers/lxml.py: `if self.queue: return None`, then "Failed to create target class"
+  | .stopped => .error (.parser "Failed to create target class")
+  -- handlers/lxml.py: `except UnicodeDecodeError: raise ParserError`
+  | .textDecodeError => .error (.parser "UnicodeDecodeError")
 
 end Xs.Fault
